@@ -26,6 +26,8 @@ class Interp:
         self.assume_mode = False
         self.polarity = True
         self.q_ctx = []
+        from . import jsonmodel
+        jsonmodel.CUR[0] = path    # ground axiom instances of Json injections go to this path
 
     # ------------------------------------------------------------------ utilities
     def fresh_value(self, t, hint):
@@ -44,7 +46,7 @@ class Interp:
         if t is TNone:
             return VNone()
         if isinstance(t, TUn):
-            return VUn(p.fresh(hint, t.sort()), t)
+            return t.wrap(p.fresh(hint, t.sort()))
         if isinstance(t, TOpt):
             v = VOpt(p.fresh(hint, t.sort()), t)
             self._assume_wf_expr(v.t.dt.val(v.e), t.inner, guard=z3.Not(v.is_none()))
@@ -287,6 +289,8 @@ class Interp:
                 r = self.call_method_ast(v, "__len__", [], {})
                 return self.truth(r)
             return z3.BoolVal(True)
+        if hasattr(v, "truth_expr"):
+            return v.truth_expr(self)
         if isinstance(v, (VFunc, VClass, VModule, VRec, VUn, VOpaque, VExc)):
             return z3.BoolVal(True)
         raise Unsupported("truth of %s" % type(v).__name__)
@@ -533,7 +537,16 @@ class Interp:
         raise Unsupported("dict literal with symbolic keys")
 
     def ev_Set(self, n, env):
-        raise Unsupported("set literal")
+        """set literal of distinct constants of one scalar type"""
+        items = [self.ev(e, env) for e in n.elts]
+        cs = [const_of(x) for x in items]
+        if not items or any(c is _NOCONST for c in cs) or len(set(cs)) != len(cs):
+            raise Unsupported("set literal with symbolic or repeated elements")
+        kt = self.join_types([typeof(x) for x in items])
+        dom = z3.K(kt.sort(), z3.BoolVal(False))
+        for x in items:
+            dom = z3.Store(dom, unwrap(x, kt), z3.BoolVal(True))
+        return VSet(dom, z3.IntVal(len(items)), kt)
 
     def ev_JoinedStr(self, n, env):
         parts = []
@@ -675,6 +688,10 @@ class Interp:
     def is_(self, a, b):
         if isinstance(a, VNone) or isinstance(b, VNone):
             return self.eq(a, b)
+        if not self.spec and (isinstance(a, VOpt) or isinstance(b, VOpt)):
+            a, b = self.force(a), self.force(b)
+            if isinstance(a, VNone) or isinstance(b, VNone):
+                return self.eq(a, b)
         if isinstance(a, (VObj, VFunc, VClass, VDictRec, VSeq, VMap, VSet, VOpaque)) or \
                 isinstance(b, (VObj, VFunc, VClass, VDictRec, VSeq, VMap, VSet, VOpaque)):
             return z3.BoolVal(a is b)
